@@ -132,6 +132,22 @@ LabelValuesFrom(d, lastVal, n, acc) ==
 AlgoLabelValues(n, k) ==
     LET offs == Offsets(n, k) IN LabelValuesFrom(offs[1].idx, offs[Len(offs)].value, n, <<>>)
 
+(* BinaryReader.LookupSymbol: a direct-mapped cache of `slots` entries in front of the symbol table  *)
+(* (slot = ref % slots; an entry is <<ref, symbol>>, <<-1, 0>> when empty).  Sym(o) is the symbol   *)
+(* table's answer.  On a miss the slot is re-tagged AND refilled.  A history of lookups returns the *)
+(* sequence of answers.                                                                              *)
+Sym(o) == o + 1
+RECURSIVE SymHistory(_, _, _, _)
+SymHistory(cache, slots, h, i) ==
+    IF i > Len(h) THEN <<>>
+    ELSE LET o == h[i]
+             e == cache[o % slots]
+             hit == e[1] = o /\ e[2] # 0
+             ans == IF hit THEN e[2] ELSE Sym(o)
+             c2 == IF hit THEN cache ELSE [cache EXCEPT ![o % slots] = <<o, Sym(o)>>]
+         IN <<ans>> \o SymHistory(c2, slots, h, i + 1)
+SymLookups(slots, h) == SymHistory([x \in 0..(slots - 1) |-> <<-1, 0>>], slots, h, 1)
+
 RECURSIVE RunFrom(_, _, _, _)
 RunFrom(s, n, k, W) == IF s.pc = "done" THEN s ELSE RunFrom(Step(s, n, k, W), n, k, W)
 (* the algorithm's answer for the abstract table: the ranges, or <<>> with err *)
